@@ -398,7 +398,7 @@ z = json.dumps({'k': [1, (lambda q: q)(2)]})
 def without_print(src: str) -> str:
     """the same program with `print` replaced by a no-op defined in the script (module tracing on: a `print` descends into the
     stdout hook, which is nextline's in the traced run and the harness's in the recorder run — the two streams would differ)"""
-    return '_out = lambda *a: None\n' + src.replace('print(', '_out(')
+    return '_out = lambda *a, **k: None\n' + src.replace('print(', '_out(')
 
 
 def mix(seed: int, choices: list[str]) -> dict:
